@@ -36,7 +36,7 @@ ANCHORS = ["JoinOn.validate", "QueryBuilder.do_join", "Joiner.on", "Joiner.on_fi
            "CreateQueryBuilder.create_table", "CreateQueryBuilder.primary_key", "DropQueryBuilder.drop_table"]
 WORKERS = {"quick": 16, "thorough": 16}
 
-SRC_SHAPES = ["plain", "aliased", "schema", "temporal", "subquery", "cte", "setop"]
+SRC_SHAPES = ["plain", "aliased", "schema", "schema-chain", "temporal", "subquery", "cte", "setop"]
 OPERAND_FORMS = ["plain", "fn", "neg", "arith", "in-subquery-foreign"]
 
 
@@ -62,6 +62,8 @@ class World:
             return T(name, alias=name + "_al")
         if shape == "schema":
             return T(name, schema="sch")
+        if shape == "schema-chain":
+            return T(name, schema=["db", "app", "sch"])
         if shape == "temporal":
             return T(name).for_(r["SystemTimeValue"]() == "2020-01-01")
         if shape == "subquery":
@@ -75,18 +77,45 @@ class World:
         raise ValueError(shape)
 
     def equal_copy(self, shape, name, original):
-        """A distinct object that == the source built by source(shape, name).  Set operations have no boolean ==
-        (Term.__eq__ builds a criterion), so "an equal copy" is undefined for them: the original is used."""
-        if shape == "setop":
-            return original
+        """A distinct object that == the source built by source(shape, name)."""
         return self.source(shape, name)
+
+    def near_miss(self, shape, name):
+        """A source that differs from source(shape, name) in exactly one component of its identity: never available."""
+        r = self.r
+        T = r["Table"]
+        if shape == "plain":
+            return T(name, schema="elsewhere")
+        if shape == "aliased":
+            return T(name, alias=name + "_al2")
+        if shape == "schema":
+            return T(name, schema="sch2")
+        if shape == "schema-chain":
+            return T(name, schema=["db2", "app", "sch"])  # only the outermost level differs
+        if shape == "temporal":
+            return T(name, alias="tmp_al").for_(r["SystemTimeValue"]() == "2020-01-01")
+        if shape == "cte":
+            return r["AliasedQuery"](name + "_cte2")
+        o = self.source(shape, name)
+        return o.as_(o.alias + "2")
+
+
+def ident(o, reg):
+    """Identity of a row source as the reference sees it, read from the raw attributes (no ==, no hash of the library)."""
+    if isinstance(o, reg["Table"]):
+        chain = []
+        sch = o._schema
+        while sch is not None:
+            chain.append(sch._name)
+            sch = sch._parent
+        return ("table", o._table_name, o.alias, tuple(chain))
+    if isinstance(o, reg["AliasedQuery"]):
+        return ("cte", o.name)
+    return ("query", o.alias)
 
 
 def same(a, b, reg):
-    if isinstance(a, reg["_SetOperation"]) or isinstance(b, reg["_SetOperation"]):
-        return a is b
-    r = (a == b)
-    return r if isinstance(r, bool) else a is b
+    return ident(a, reg) == ident(b, reg)
 
 
 # -------------------------------------------------------------------------------------------------------- cases
@@ -97,7 +126,7 @@ def cases(tier, seed, shard, nshards):
     for base in SRC_SHAPES:
         for item in SRC_SHAPES:
             for lsrc, rsrc in itertools.product(["base", "item", "foreign", "base-copy", "item-copy", "prev-join", "update", "none",
-                                                 "declared-cte", "undeclared-cte"], repeat=2):
+                                                 "declared-cte", "undeclared-cte", "base-near", "item-near"], repeat=2):
                 for samecol in (True, False):
                     for form in OPERAND_FORMS:
                         k += 1
@@ -108,7 +137,7 @@ def cases(tier, seed, shard, nshards):
     rnd = random.Random("C14:%d:%d" % (seed, shard))
     for _ in range((40000 if tier == "quick" else 600000) // nshards):
         srcs = ["base", "item", "foreign", "base-copy", "item-copy", "prev-join", "update", "base2", "none", "foreign2",
-                "declared-cte", "declared-cte", "undeclared-cte"]
+                "declared-cte", "declared-cte", "undeclared-cte", "base-near", "item-near"]
         yield {"k": "join", "d": rnd.choice(dl), "base": rnd.choice(SRC_SHAPES), "item": rnd.choice(SRC_SHAPES),
                "l": rnd.choice(srcs), "r": rnd.choice(srcs), "samecol": rnd.random() < 0.5, "form": rnd.choice(OPERAND_FORMS),
                "extra": [[rnd.choice(srcs), rnd.choice(srcs), rnd.choice(["and", "or"])] for _ in range(rnd.randint(0, 2))],
@@ -212,7 +241,8 @@ def run_join(case, mon):
         return
     available.append(item)
     pool = {"base": base, "item": item, "foreign": foreign, "foreign2": foreign2, "prev-join": prev, "base2": base2, "update": upd, "declared-cte": reg["AliasedQuery"]("d_cte"), "undeclared-cte": reg["AliasedQuery"]("zz_cte"),
-            "base-copy": w.equal_copy(case["base"], "b", base), "item-copy": w.equal_copy(case["item"], "j", item), "none": None}
+            "base-copy": w.equal_copy(case["base"], "b", base), "item-copy": w.equal_copy(case["item"], "j", item), "none": None,
+            "base-near": w.near_miss(case["base"], "b"), "item-near": w.near_miss(case["item"], "j")}
 
     # what happened to the partial statement before: nothing / sibling branches joined the other tables (and one tried an invalid
     # join) and were discarded / it was rendered / the join is made on a copy.  None of it may change the verdict.
